@@ -207,6 +207,23 @@ func runGroup(c *vf.Check, g *groups.G) {
 			b := b
 			ab, ok1 := checked(func() fmod.V { return m.Add(a, b) }, a, b)
 			checked(func() fmod.V { return m.Sub(a, b) }, a, b)
+			// accumulator forms: the receiver is the first operand
+			checked(func() fmod.V {
+				x := m.Decoded(a)
+				x.P.Add(x.P, b.P)
+				return fmod.V{Name: "AddInPlace(" + a.Name + "," + b.Name + ")", P: x.P, Vec: m.VAdd(a.Vec, b.Vec)}
+			}, a, b)
+			checked(func() fmod.V {
+				x := m.Decoded(a)
+				x.P.Sub(x.P, b.P)
+				return fmod.V{Name: "SubInPlace(" + a.Name + "," + b.Name + ")", P: x.P, Vec: m.VSub(a.Vec, b.Vec)}
+			}, a, b)
+			checked(func() fmod.V {
+				x := m.Decoded(a)
+				x.P.Add(x.P, b.P)
+				x.P.Sub(x.P, b.P)
+				return fmod.V{Name: "AddSubInPlace(" + a.Name + "," + b.Name + ")", P: x.P, Vec: a.Vec}
+			}, a, b)
 			if ok1 {
 				c.Case(g.Name+": comm "+ab.Name, pk+"/Add-comm", func(x *vf.Ctx) {
 					ba := m.Add(b, a)
